@@ -82,7 +82,16 @@ async def drive(peer, sess: M.Session, ops, *, world=None, check_tree=True, sett
             will_connect = False  # no address was ever announced: the peer cannot connect
         if on_step is not None:
             on_step(st, "before", sess)  # may swap the model's tree (per-user base directories)
-        exp = sess.expect(v, arg, will_connect=will_connect, user_limit_reached=opts.get("limit_reached", False))
+        try:
+            exp = sess.expect(v, arg, will_connect=will_connect, user_limit_reached=opts.get("limit_reached", False))
+        except Exception:
+            # the model was advanced with a reply it had rejected (reported above as a problem of
+            # an earlier step) and is no longer in a state it can reason from: stop comparing
+            if any(x.problems for x in steps):
+                st.problems.append(("not-run", "model and server diverged at an earlier step"))
+                alive = False
+                continue
+            raise
         st.expect = exp
         between_cwd = None
         line = verb if arg == "" and not opts.get("trailing_space") else f"{verb} {arg}"
@@ -112,8 +121,14 @@ async def drive(peer, sess: M.Session, ops, *, world=None, check_tree=True, sett
                             st.between += 1
                         between_cwd = sess.cwd
                     if will_connect:
-                        if not sess.dc:
-                            await peer.data_connect()
+                        if not sess.dc or peer.data is None:
+                            # (peer.data is None with sess.dc set: an earlier step ended differently
+                            # from what the model expected - reported there - and closed it)
+                            try:
+                                await peer.data_connect()
+                            except OSError:
+                                st.problems.append(("no-data-connection", f"{line!r}: the announced passive port refused the data connection"))
+                                raise PeerGone()
                             sess.dc = True
                         if v in ("STOR", "APPE"):
                             stored = payload_of(op) if payload_of else b"payload-" + arg.encode("utf-8", "replace")
@@ -182,7 +197,12 @@ async def drive(peer, sess: M.Session, ops, *, world=None, check_tree=True, sett
                     st.problems.append(("wrong-listing", f"{line!r}: listed {got}, model has {sorted(exp.names)}"))
             if between_cwd is not None:
                 sess.cwd = cwd_at_command
-            sess.apply(v, arg, st.final, stored=stored)
+            try:
+                sess.apply(v, arg, st.final, stored=stored)
+            except Exception:
+                if not any(x.problems for x in steps):
+                    raise
+                alive = False
             if between_cwd is not None:
                 sess.cwd = between_cwd
             if exp.closes and not st.closed:
